@@ -228,9 +228,9 @@ def snap_item(x, k):
     if hasattr(x, 'raw_filename'):
         ct = x.content_type
         ctv = cps(ct.value) if hasattr(ct, 'value') else None
-        x.file.seek(0)
-        a = x.file.read(k)
+        a = x.file.read(k)          # first snapshot: from the initial position of the window
         b = x.file.read()
+        x.file.seek(0)              # rewind for the next snapshot (the same object is in POST and files)
         return ['f', cps(x.raw_filename), ctv, list(a), list(b)]
     return ['t', None if x is None else cps(x)]
 
